@@ -12,6 +12,7 @@ import (
 	"os"
 	"strings"
 	"sync/atomic"
+	"syscall"
 	"testing"
 	"time"
 
@@ -72,6 +73,10 @@ type scenario struct {
 	// GlitchAt > 0: the GlitchAt-th backend operation of contender 0 (its heart beat included) fails once with a transient
 	// error and leaves the backend untouched
 	GlitchAt int
+	// RefuseRemovals > 0: the first RefuseRemovals removals (Remove / RemoveAll) contender 0 attempts are refused with EBUSY
+	// and leave the backend untouched (a hung holder that still has its file open, an NFS silly-rename entry): a whole
+	// release attempt of an overriding contender fails, a later one works
+	RefuseRemovals int
 }
 
 type phase int
@@ -299,6 +304,17 @@ func body(sc scenario) func(x *gosim.Exec) {
 				return nil
 			}
 		}
+		if sc.RefuseRemovals > 0 {
+			refused := 0
+			hook.BeforeOp = func(op *vfsx.Op) *vfsx.Inject {
+				if op.Client != 0 || (op.Kind != vfsx.KRemove && op.Kind != vfsx.KRemoveAll) || refused >= sc.RefuseRemovals {
+					return nil
+				}
+				refused++
+				x.Note("removal %d of contender 0 refused: %s", refused, op)
+				return &vfsx.Inject{Err: &os.PathError{Op: "remove", Path: op.Path, Err: syscall.EBUSY}}
+			}
+		}
 		shared := vfsx.NewShared(hook)
 		for i, c := range sc.Contenders {
 			i, c := i, c
@@ -457,6 +473,18 @@ func scenarios() []scenario {
 			add(fmt.Sprintf("dead/Try-override+Lock-override glitch@%02d P1", k), "posixmem", "dead", 1, T(true), L(true))
 			out[len(out)-1].GlitchAt = k
 		}
+	}
+	// a stale lock that cannot be removed for a while: the overriding contender's first 9 / 10 / 11 / 20 removals are refused; a
+	// plain contender comes 250 ms later
+	for _, n := range []int{9, 10, 11, 20} {
+		late := T(false)
+		late.StartAfter = 250 * time.Millisecond
+		add(fmt.Sprintf("dead/Try-override (first %d removals refused) + late Try hold200 P1", n), "posixmem", "dead", 1, T(true), late)
+		out[len(out)-1].RefuseRemovals = n
+		lateL := L(false)
+		lateL.StartAfter = 250 * time.Millisecond
+		add(fmt.Sprintf("dead/Lock-override (first %d removals refused) + late Lock hold200 P0", n), "posixmem", "dead", 0, L(true), lateL)
+		out[len(out)-1].RefuseRemovals = n
 	}
 	if f := os.Getenv("VERIF_SCENARIO"); f != "" {
 		var sel []scenario
